@@ -8,7 +8,8 @@ OUT=/tmp/seed-$ID-out; WT=/tmp/seed-$ID
 P=$OUT/patch$K.diff
 export GOFLAGS=-mod=mod GOPROXY=off GOSUMDB=off GOTOOLCHAIN=local
 [ -f "$P" ] || { echo "no patch $P"; exit 2; }
-cd $WT && git checkout -q -- . && git apply "$P" || { echo "patch does not apply in worktree"; exit 2; }
+cd $WT && git checkout -q -- . && { git apply "$P" 2>/dev/null || git apply -3 "$P"; } || { echo "patch does not apply in worktree"; exit 2; }
+git reset -q 2>/dev/null
 echo "--- repo tests with the change:"
 go test -vet=off -count=1 ./pkg/exec/ ./pkg/io/ ./pkg/runtime/ ./pkg/syntax/... ./pkg/value/ 2>&1 | grep -v "no test files" | tr '\n' ' '; echo
 echo "--- demo with the change (must FAIL):"
@@ -17,7 +18,8 @@ git checkout -q -- .
 echo "--- demo without the change (must PASS):"
 ( cd $OUT/demo$K && timeout 300 bash ./run.sh 2>&1 | tail -2 ); echo "demo exit=$?"
 cd /repo && git diff --quiet || { echo "/repo dirty"; exit 2; }
-git apply "$P" || { echo "patch does not apply to /repo"; exit 2; }
+{ git apply "$P" 2>/dev/null || git apply -3 "$P"; } || { echo "patch does not apply to /repo"; git checkout -q -- .; exit 2; }
+git reset -q 2>/dev/null
 echo "--- check $ID $TIER with the change applied to /repo:"
 /verif/check $ID $TIER 2>&1 | grep -a -E "^(VIOLATION|KNOWN|BUILD|C[0-9]+ (quick|thorough))" | head -6
 git checkout -- . ; git status --short | head -3
